@@ -72,5 +72,527 @@ SPECS["C03"] = Spec(
     assumptions=["x86-64, clang -O1 build of the current tree with asserts on", "interleavings at instrumented-access granularity (SC; TSO store buffers in a third of thorough schedules)"],
     technique="property-based testing: Hypothesis-generated fiber programs x generated schedules under an owned scheduler, occupancy/visibility ghost oracle, quiescence = deadlock proof")
 
+
+RT_ASSUME = ["x86-64, clang -O1 build of the current working tree with asserts on (asserts join the oracle)",
+             "interleavings at instrumented-access granularity; SC everywhere, x86-TSO store buffers in a third of the thorough schedules",
+             "kernel is real for fds, but time is virtual (timerfd replaced by an eventfd the harness ticks at quiescence)"]
+RT_TECH = ("property-based testing: Hypothesis-generated fiber programs x generated schedules (fair, random walk, PCT, targeted delay, replay) "
+           "under an owned scheduler; ghost-state oracle; quiescence = deadlock proof; decision-list shrinking")
+
+
+def small_ops(draw, n_max):
+    ops = []
+    for _ in range(draw(ints(0, n_max))):
+        if draw(st.booleans()):
+            ops.append(op("yield", draw(ints(1, 2))))
+        else:
+            ops.append(op("work", draw(ints(1, 5))))
+    return ops
+
+
+# --------------------------------------------------------------------------- C06
+@st.composite
+def sem_case(draw, tier):
+    threads = draw(ints(1, T(tier, 3, 4)))
+    ns = draw(ints(1, 2))
+    inits = [draw(ints(0, 3)) for _ in range(ns)]
+    nf = draw(ints(2, T(tier, 6, 10)))
+    uposts, uwaits, paired = [0] * ns, [0] * ns, [False] * ns
+    fibers = []
+    for _ in range(nf):
+        ops = []
+        # unpaired posts come first in a fiber, so they are never stuck behind a wait
+        for _ in range(draw(ints(0, 2))):
+            s = draw(ints(0, ns - 1))
+            ops.append(op("spost", s))
+            uposts[s] += 1
+        for _ in range(draw(ints(0, T(tier, 5, 10)))):
+            k = draw(st.sampled_from(["swaitpost", "swaitpost", "strywait", "swait", "yield", "work"]))
+            s = draw(ints(0, ns - 1))
+            if k == "swait":
+                ops.append(op("swait", s))
+                uwaits[s] += 1
+            elif k in ("swaitpost", "strywait"):
+                ops.append(op(k, s, draw(ints(0, 2)), draw(ints(0, 4))))
+                if k == "swaitpost":
+                    paired[s] = True
+            elif k == "yield":
+                ops.append(op("yield", draw(ints(1, 2))))
+            else:
+                ops.append(op("work", draw(ints(1, 5))))
+        fibers.append(ops)
+    # make every wait satisfiable: missing units arrive from a late poster fiber (so waiters really block)
+    poster = []
+    for s in range(ns):
+        need = uwaits[s] + (1 if paired[s] else 0) - uposts[s] - inits[s]
+        for _ in range(max(0, need)):
+            poster.append(op("yield", draw(ints(1, 3))))
+            poster.append(op("spost", s))
+    if poster:
+        fibers.append(poster)
+    cfg = {"nsem": ns}
+    for s in range(ns):
+        cfg["sem_init%d" % s] = inits[s]
+    classes = ["threads=%d" % threads, "late_poster" if poster else "no_late_poster"]
+    return {"harness": "sem", "threads": threads, "cfg": cfg, "fibers": fibers, "classes": classes}
+
+
+# --------------------------------------------------------------------------- C07
+@st.composite
+def rwlock_case(draw, tier):
+    threads = draw(ints(1, T(tier, 3, 4)))
+    nl = draw(ints(1, 2))
+    nf = draw(ints(2, T(tier, 7, 10)))
+    bias = draw(st.sampled_from(["mixed", "writer_waits_readers_arrive", "readers_behind_writer"]))
+    fibers = []
+    for i in range(nf):
+        ops = []
+        for _ in range(draw(ints(1, T(tier, 6, 12)))):
+            if bias == "writer_waits_readers_arrive":
+                kinds = ["rd", "rd", "rd", "wr", "tryrd", "yield"]
+            elif bias == "readers_behind_writer":
+                kinds = ["wr", "wr", "rd", "rd", "trywr", "yield"]
+            else:
+                kinds = ["rd", "wr", "tryrd", "trywr", "yield", "work"]
+            k = draw(st.sampled_from(kinds))
+            if k in ("rd", "wr", "tryrd", "trywr"):
+                ops.append(op(k, draw(ints(0, nl - 1)), draw(ints(0, 2)), draw(ints(0, 4))))
+            elif k == "yield":
+                ops.append(op("yield", draw(ints(1, 2))))
+            else:
+                ops.append(op("work", draw(ints(1, 5))))
+        fibers.append(ops)
+    return {"harness": "rwlock", "threads": threads, "cfg": {"nrw": nl}, "fibers": fibers, "classes": ["threads=%d" % threads, bias]}
+
+
+# --------------------------------------------------------------------------- C12
+@st.composite
+def barrier_case(draw, tier):
+    threads = draw(ints(1, T(tier, 3, 4)))
+    count = draw(ints(1, T(tier, 5, 6)))
+    rounds = draw(ints(1, 6))
+    fibers = []
+    for _ in range(count):
+        ops = []
+        for _ in range(rounds):
+            ops.extend(small_ops(draw, 1))
+            ops.append(op("bwait", 0))
+        fibers.append(ops)
+    cfg = {"nbar": 1, "bar_count0": count}
+    classes = ["threads=%d" % threads, "count=%d" % count, "rounds>=2" if rounds >= 2 else "rounds=1"]
+    # optionally a second, independent group on barrier 1
+    if draw(st.booleans()) and count <= 3:
+        c2 = draw(ints(1, 3))
+        r2 = draw(ints(1, 4))
+        for _ in range(c2):
+            ops = []
+            for _ in range(r2):
+                ops.extend(small_ops(draw, 1))
+                ops.append(op("bwait", 1))
+            fibers.append(ops)
+        cfg["nbar"] = 2
+        cfg["bar_count1"] = c2
+        classes.append("two_groups")
+    return {"harness": "barrier", "threads": threads, "cfg": cfg, "fibers": fibers, "classes": classes}
+
+
+# --------------------------------------------------------------------------- C18
+@st.composite
+def spin_case(draw, tier):
+    threads = draw(ints(1, T(tier, 3, 4)))
+    nl = draw(ints(1, 2))
+    start = draw(st.sampled_from([0, 0, 1, 4294967295, 4294967294, 4294967290, 2147483647]))
+    nf = draw(ints(2, T(tier, 6, 9)))
+    fibers = []
+    for _ in range(nf):
+        ops = []
+        for _ in range(draw(ints(1, T(tier, 6, 12)))):
+            k = draw(st.sampled_from(["slock", "slock", "strylock", "yield", "work"]))
+            if k in ("slock", "strylock"):
+                ops.append(op(k, draw(ints(0, nl - 1)), 0, draw(ints(0, 4))))
+            elif k == "yield":
+                ops.append(op("yield", 1))
+            else:
+                ops.append(op("work", draw(ints(1, 5))))
+        fibers.append(ops)
+    classes = ["threads=%d" % threads, "wrap" if start > 4000000000 else "nowrap"]
+    return {"harness": "spin", "threads": threads, "cfg": {"nspin": nl, "spin_start": start}, "fibers": fibers, "classes": classes}
+
+
+# --------------------------------------------------------------------------- C05
+@st.composite
+def cond_case(draw, tier):
+    threads = draw(ints(1, T(tier, 3, 4)))
+    nw = draw(ints(1, T(tier, 4, 6)))
+    nsig = draw(ints(1, T(tier, 3, 5)))
+    fibers = []
+    for _ in range(nw):
+        ops = small_ops(draw, 1)
+        ops.append(op("cwait", draw(ints(1, 3))))
+        fibers.append(ops)
+    held_any = unheld_any = False
+    for _ in range(nsig):
+        ops = []
+        for _ in range(draw(ints(1, T(tier, 4, 7)))):
+            ops.extend(small_ops(draw, 1))
+            held = draw(ints(0, 1))
+            held_any |= bool(held)
+            unheld_any |= not held
+            ops.append(op(draw(st.sampled_from(["csignal", "csignal", "cbcast"])), held))
+        fibers.append(ops)
+    order = draw(st.permutations(list(range(len(fibers)))))
+    fibers = [fibers[i] for i in order]
+    fibers.append([op("ctl")])
+    classes = ["threads=%d" % threads]
+    if held_any:
+        classes.append("signal_holding_mutex")
+    if unheld_any:
+        classes.append("signal_without_mutex")
+    return {"harness": "cond", "threads": threads, "cfg": {"cond": 1}, "fibers": fibers, "classes": classes}
+
+
+# --------------------------------------------------------------------------- C04
+@st.composite
+def join_case(draw, tier, allow_detach_blocked=True):
+    threads = draw(ints(1, T(tier, 3, 4)))
+    nt = draw(ints(1, T(tier, 3, 5)))
+    scen_pool = ["join", "tryjoin", "detach", "contend_jj", "contend_jt", "detachjoin"]
+    if allow_detach_blocked:
+        scen_pool.append("detachblocked")
+    scens = [draw(st.sampled_from(scen_pool)) for _ in range(nt)]
+    targets, actors = [], []
+    # targets first: indexes 0..nt-1
+    for t, sc in enumerate(scens):
+        gated = sc in ("contend_jj", "contend_jt", "detachjoin", "detachblocked")
+        targets.append([op("target", 0 if gated else -1)] + small_ops(draw, 3))
+    base = nt
+    for t, sc in enumerate(scens):
+        pre = small_ops(draw, 2)
+        if sc == "join":
+            actors.append(pre + [op("join", t, 0)])
+        elif sc == "tryjoin":
+            actors.append(pre + [op("tryjoin", t, 0, draw(ints(0, 2)))])
+        elif sc == "detach":
+            actors.append(pre + [op("detach", t)])
+        elif sc == "contend_jj":
+            actors.append(pre + [op("join", t, 1)])
+            actors.append(small_ops(draw, 2) + [op("join", t, 1)])
+        elif sc == "contend_jt":
+            actors.append(pre + [op("join", t, 1)])
+            actors.append(small_ops(draw, 2) + [op("tryjoin", t, 1)])
+        elif sc == "detachjoin":
+            actors.append(pre + [op("detachjoin", t)])
+        elif sc == "detachblocked":
+            j = base + len(actors)
+            actors.append(pre + [op("join", t, 2)])
+            actors.append(small_ops(draw, 1) + [op("detachblocked", t, j)])
+    fibers = targets + actors
+    classes = ["threads=%d" % threads] + sorted(set(scens))
+    return {"harness": "join", "threads": threads, "cfg": {}, "fibers": fibers, "classes": classes}
+
+
+# --------------------------------------------------------------------------- C11
+@st.composite
+def chan_case(draw, tier):
+    ctype = draw(st.sampled_from([0, 0, 1, 2, 2, 3, 5]))
+    threads = draw(ints(2 if ctype == 5 else 1, T(tier, 3, 4)))
+    cap = draw(ints(1, 4))
+    nsend = 1 if ctype == 3 else draw(ints(1, 4))
+    fibers = []
+    total = 0
+    for _ in range(nsend):
+        ops = small_ops(draw, 1)
+        n = draw(ints(1, T(tier, 12, 30)))
+        # split the sender's messages into bursts with pauses
+        while n > 0:
+            b = draw(ints(1, n))
+            ops.append(op("send", 0, b, draw(ints(0, 2))))
+            n -= b
+            total += b
+            ops.extend(small_ops(draw, 1))
+        fibers.append(ops)
+    rops = small_ops(draw, 1)
+    n = total
+    while n > 0:
+        b = draw(ints(1, n))
+        rops.append(op("recv", 0, b, draw(ints(0, 2))))
+        n -= b
+        rops.extend(small_ops(draw, 1))
+    pos = draw(ints(0, len(fibers)))
+    fibers.insert(pos, rops)
+    names = {0: "bounded_signal", 1: "bounded_spin", 2: "unbounded", 3: "unbounded_sp", 5: "unbounded_spin"}
+    classes = ["threads=%d" % threads, names[ctype], "cap=%d" % (1 << cap) if ctype in (0, 1) else "cap=inf"]
+    return {"harness": "chan", "threads": threads, "cfg": {"nchan": 1, "chan_type0": ctype, "chan_cap0": cap}, "fibers": fibers, "classes": classes}
+
+
+@st.composite
+def mchan_case(draw, tier):
+    threads = draw(ints(1, T(tier, 3, 4)))
+    cap = draw(ints(1, 3))
+    nsend = draw(ints(1, 4))
+    nrecv = draw(ints(1, 3))
+    counts = [draw(ints(1, T(tier, 8, 20))) for _ in range(nsend)]
+    total = sum(counts)
+    # split total among receivers
+    cuts = sorted(draw(ints(0, total)) for _ in range(nrecv - 1))
+    rc = [b - a for a, b in zip([0] + cuts, cuts + [total])]
+    fibers = []
+    for c in counts:
+        fibers.append(small_ops(draw, 1) + [op("msend", 0, c, draw(ints(0, 2)))])
+    for c in rc:
+        if c > 0:
+            fibers.append(small_ops(draw, 1) + [op("mrecv", 0, c, draw(ints(0, 2)))])
+    order = draw(st.permutations(list(range(len(fibers)))))
+    fibers = [fibers[i] for i in order]
+    classes = ["threads=%d" % threads, "senders=%d" % nsend, "receivers=%d" % sum(1 for c in rc if c > 0), "cap=%d" % (1 << cap)]
+    return {"harness": "mchan", "threads": threads, "cfg": {"mchan_cap": cap}, "fibers": fibers, "classes": classes}
+
+
+# --------------------------------------------------------------------------- C20 (b)
+@st.composite
+def msig_case(draw, tier):
+    threads = draw(ints(1, T(tier, 3, 4)))
+    nw = draw(ints(1, T(tier, 5, 8)))   # total waits
+    nr = draw(ints(0, nw))
+    nstrict = draw(ints(0, nw - nr)) if threads >= 2 else 0
+    # distribute waits over 1..4 waiter fibers
+    nwf = draw(ints(1, min(4, nw)))
+    waits = [1] * nwf
+    for _ in range(nw - nwf):
+        waits[draw(ints(0, nwf - 1))] += 1
+    fibers = []
+    for w in waits:
+        ops = []
+        for _ in range(w):
+            ops.extend(small_ops(draw, 1))
+            ops.append(op("mwait"))
+        fibers.append(ops)
+    nrf = draw(ints(1, 3))
+    rops = [[] for _ in range(nrf)]
+    for k in ["mraise"] * nr + ["mstrict"] * nstrict:
+        f = rops[draw(ints(0, nrf - 1))]
+        f.extend(small_ops(draw, 1))
+        f.append(op(k))
+    fibers.extend(r for r in rops if r)
+    order = draw(st.permutations(list(range(len(fibers)))))
+    fibers = [fibers[i] for i in order]
+    fibers.append([op("mctl")])
+    classes = ["threads=%d" % threads, "strict" if nstrict else "no_strict"]
+    return {"harness": "msig", "threads": threads, "cfg": {"msig": 1}, "fibers": fibers, "classes": classes}
+
+
+# --------------------------------------------------------------------------- C09
+DUR_US = [0, 1, 999, 1000, 4999, 5000, 7000, 3000, 3000, 3000, 12000, 25000]
+
+
+@st.composite
+def sleep_case(draw, tier):
+    threads = draw(ints(1, T(tier, 3, 4)))
+    nf = draw(ints(1, T(tier, 8, 12)))
+    long_one = draw(st.sampled_from([None, None, None, (1, 1), (2, 999999), (1, 0)]))
+    g = draw(ints(1, 4)) if long_one is None else draw(ints(40, 120))
+    backlog = draw(st.booleans())
+    fibers = []
+    shared = draw(st.sampled_from(DUR_US))
+    for i in range(nf):
+        ops = []
+        for _ in range(draw(ints(1, 3))):
+            if backlog and draw(ints(0, 3)) == 0:
+                ops.append(op("work", draw(ints(1, 5))))
+                ops.append(op("tick", draw(st.sampled_from([1, 3, 30, 250]))))
+            kind = draw(ints(0, 3))
+            us = shared if draw(st.booleans()) else draw(st.sampled_from(DUR_US))
+            if kind == 3:
+                ops.append(op("sleep", 3, 1 if long_one else 0, 0))
+            else:
+                ops.append(op("sleep", kind, 0, us))
+        fibers.append(ops)
+    if long_one is not None:
+        fibers.append([op("sleep", draw(ints(0, 2)), long_one[0], long_one[1])])
+    # finite tickers: other fibers keep running while the rest sleeps
+    for _ in range(draw(ints(0, 2))):
+        fibers.append([op("yield", draw(ints(1, 30)))])
+    classes = ["threads=%d" % threads, "backlog" if backlog else "no_backlog", "seconds" if long_one else "sub_second"]
+    return {"harness": "sleep", "threads": threads, "cfg": {"sleepers": 1, "ticks_per_quiescence": g}, "fibers": fibers, "classes": classes}
+
+
+# --------------------------------------------------------------------------- C10
+@st.composite
+def yield_case(draw, tier):
+    threads = draw(st.sampled_from([1, 1, 1, 2, 3]))
+    nf = draw(ints(2, 8))
+    n_initial = draw(ints(2, nf))
+    fibers = []
+    deferred = list(range(n_initial, nf))
+    for i in range(nf):
+        ops = []
+        for _ in range(draw(ints(1, 4))):
+            k = draw(st.sampled_from(["yield", "yield", "work"]))
+            if k == "yield":
+                ops.append(op("yield", draw(st.sampled_from([1, 3, 20, 60, 120, 200]))))
+            else:
+                ops.append(op("work", draw(ints(1, 8))))
+        fibers.append(ops)
+    # each deferred fiber is spawned exactly once by some earlier fiber
+    for d in deferred:
+        by = draw(ints(0, d - 1))
+        pos = draw(ints(0, len(fibers[by])))
+        fibers[by].insert(pos, op("spawn", d))
+    classes = ["threads=%d" % threads, "fibers>=3" if nf >= 3 else "fibers=2", "deferred_spawn" if deferred else "all_at_start"]
+    return {"harness": "yield", "threads": threads, "cfg": {"defer_from": n_initial}, "fibers": fibers, "classes": classes}
+
+
+# --------------------------------------------------------------------------- C01 / C02(b): mixed programs
+@st.composite
+def mixed_case(draw, tier, storm=False):
+    threads = draw(ints(2 if storm else 1, T(tier, 3, 4)))
+    nf = draw(ints(3, T(tier, 8, 12)))
+    cfg = {"nmutex": 2, "nsem": 1, "sem_init0": draw(ints(1, 2)), "nrw": 1, "nspin": 1, "sleepers": 1, "ticks_per_quiescence": draw(ints(1, 3))}
+    fibers = [[] for _ in range(nf)]
+    kinds_used = set()
+    self_contained = ["lock", "trylock", "swaitpost", "strywait", "rd", "wr", "tryrd", "trywr", "slock", "strylock", "yield", "work", "sleep"]
+    if storm:
+        self_contained = ["yield", "yield", "work", "lock", "swaitpost"]
+    for f in fibers:
+        for _ in range(draw(ints(1, T(tier, 6, 12)))):
+            k = draw(st.sampled_from(self_contained))
+            kinds_used.add(k)
+            if k in ("lock", "trylock"):
+                f.append(op(k, draw(ints(0, 1)), draw(ints(0, 2)), draw(ints(0, 3))))
+            elif k in ("swaitpost", "strywait", "rd", "wr", "tryrd", "trywr"):
+                f.append(op(k, 0, draw(ints(0, 2)), draw(ints(0, 3))))
+            elif k in ("slock", "strylock"):
+                f.append(op(k, 0, 0, draw(ints(0, 3))))
+            elif k == "yield":
+                f.append(op("yield", draw(ints(1, 3))))
+            elif k == "work":
+                f.append(op("work", draw(ints(1, 6))))
+            else:
+                f.append(op("sleep", draw(ints(0, 2)), 0, draw(st.sampled_from([0, 1000, 3000, 3000, 7000]))))
+    extra = []
+    if not storm:
+        # barrier group: its members only run self-contained gadgets otherwise
+        if draw(st.booleans()):
+            cnt = draw(ints(2, min(3, nf)))
+            rounds = draw(ints(1, 3))
+            cfg["nbar"] = 1
+            cfg["bar_count0"] = cnt
+            for i in range(cnt):
+                for _ in range(rounds):
+                    fibers[i].insert(draw(ints(0, len(fibers[i]))), op("bwait", 0))
+            kinds_used.add("barrier")
+        # channel: unbounded with signal, senders have lower index than the receiver (no cycles)
+        if draw(st.booleans()) and nf >= 3:
+            recv = nf - 1
+            cfg.update({"nchan": 1, "chan_type0": 2, "chan_cap0": 1})
+            total = 0
+            for snd in draw(st.lists(ints(0, nf - 2), min_size=1, max_size=2, unique=True)):
+                n = draw(ints(1, 5))
+                fibers[snd].insert(draw(ints(0, len(fibers[snd]))), op("send", 0, n, 0))
+                total += n
+            fibers[recv].append(op("recv", 0, total, 0))
+            kinds_used.add("channel")
+        # join pairs: fresh target fibers (self-contained bodies) + actors appended to existing fibers
+        for _ in range(draw(ints(0, 2))):
+            t = len(fibers) + len(extra)
+            extra.append([op("target", -1)] + small_ops(draw, 3))
+            actor = draw(ints(0, nf - 1))
+            fibers[actor].append(draw(st.sampled_from([op("join", t, 0), op("tryjoin", t, 0, 1), op("detach", t)])))
+            kinds_used.add("join")
+        # cond: waiters + signallers + controller
+        if draw(st.booleans()):
+            cfg["cond"] = 1
+            for w in draw(st.lists(ints(0, nf - 1), min_size=1, max_size=2, unique=True)):
+                fibers[w].append(op("cwait", 1))
+            sg = draw(ints(0, nf - 1))
+            fibers[sg].insert(draw(ints(0, len(fibers[sg]))), op(draw(st.sampled_from(["csignal", "cbcast"])), draw(ints(0, 1))))
+            extra.append([op("ctl")])
+            kinds_used.add("cond")
+        # multi-signal
+        if draw(st.booleans()):
+            cfg["msig"] = 1
+            w = draw(ints(0, nf - 1))
+            fibers[w].append(op("mwait"))
+            r = draw(ints(0, nf - 1))
+            if r != w:
+                fibers[r].insert(draw(ints(0, len(fibers[r]))), op("mraise"))
+            extra.append([op("mctl")])
+            kinds_used.add("msig")
+    # targets must keep the indexes assigned above: extra fibers follow in order
+    allf = fibers + extra
+    classes = ["threads=%d" % threads, "storm" if storm else "mixed"] + sorted(k for k in kinds_used if k in ("barrier", "channel", "join", "cond", "msig", "sleep"))
+    return {"harness": "mixed", "threads": threads, "cfg": cfg, "fibers": allf, "classes": classes}
+
+
+def rt_spec(pid, parts_fn, examples, rule):
+    return Spec(pid, "runner_rt", parts_fn, examples, rule=rule, assumptions=RT_ASSUME, technique=RT_TECH)
+
+
+def one_part(name, strat_fn, q_sched=32, t_sched=160, tso_thorough=1):
+    def parts(tier):
+        return [{"name": name, "strategy": strat_fn(tier), "nsched": T(tier, q_sched, t_sched), "args": ["--tso", T(tier, 0, tso_thorough)]}]
+    return parts
+
+
+SCHED_TXT = ("each program runs under 32 (quick) / 160 (thorough) generated schedules: 1 fair baseline, then random walk p in {1/4..1/256}, PCT depth 1-5 and "
+             "targeted-delay PCT whose change points fall on accesses to the object under test; distinct = distinct (program, decision list). ")
+
+SPECS["C03"] = rt_spec("C03", one_part("mutex", mutex_case), {"quick": 3000, "thorough": 30000},
+    "Hypothesis generates fiber programs over 1-2 mutexes (lock/trylock sections whose bodies read-modify-write a plain cell and may yield, plus yield/work) "
+    "on 1-3(4) virtual kernel threads; " + SCHED_TXT + "Non-trivial = at least one lock call was contended (the locker was suspended in the waiter queue and "
+    "resumed by an unlock); 'early_wake' in the histogram counts unlocks that found the locker between its decrement and its context switch.")
+SPECS["C06"] = rt_spec("C06", one_part("sem", sem_case), {"quick": 3000, "thorough": 30000},
+    "Programs over 1-2 semaphores (initial 0-3): wait{body}post, trywait{body}post, unpaired post (first in a fiber) and unpaired wait, missing units supplied by a late "
+    "poster fiber so that waiters really block; " + SCHED_TXT + "Oracle: admissions <= initial + posts begun at every instant, trywait never suspends, value == "
+    "initial + posts - admissions at quiescence, nobody stranded. Non-trivial = at least one wait blocked and was released by a post.")
+SPECS["C07"] = rt_spec("C07", one_part("rwlock", rwlock_case), {"quick": 3000, "thorough": 30000},
+    "Programs of rd/wr/tryrd/trywr sections (bodies may yield) over 1-2 rwlocks, biased towards 'writer waits while readers keep arriving' and 'readers queue behind a "
+    "writer'; " + SCHED_TXT + "Oracle: occupancy ghost (writers <= 1, writers*readers == 0), try variants never suspend and succeed only when legal, writer's data "
+    "visible to next holders, state word 0 and nobody stranded at quiescence. Non-trivial = at least one lock call blocked and was admitted by an unlock.")
+SPECS["C12"] = rt_spec("C12", one_part("barrier", barrier_case), {"quick": 3000, "thorough": 30000},
+    "count 1-5(6), exactly count fibers, 1-6 back-to-back rounds with optional yield/work between, optionally a second independent group; " + SCHED_TXT +
+    "Oracle: on return from the k-th wait all count fibers have entered their k-th wait, exactly one serial fiber per round, everyone returns. "
+    "Non-trivial = >= 2 rounds and at least one participant actually blocked.")
+SPECS["C18"] = rt_spec("C18", one_part("spin", spin_case), {"quick": 3000, "thorough": 30000},
+    "lock/trylock sections with non-yielding bodies over 1-2 spinlocks whose ticket/users words start at 0, 2^31-1 or just below 2^32 (wrap-around); " + SCHED_TXT +
+    "Oracle: occupancy ghost, the k-th acquisition is served ticket start+k (FIFO ticket order, trylock takes a ticket too), trylock and the holder are never "
+    "suspended, ticket == users at the end. Non-trivial = a contender spun or a trylock failed.")
+SPECS["C05"] = rt_spec("C05", one_part("cond", cond_case), {"quick": 3000, "thorough": 30000},
+    "1-4(6) waiters doing bare waits (no predicate loop, 1-3 immediate re-waits), 1-3(5) signaller fibers issuing signal/broadcast both holding the user mutex and without it, "
+    "a parked controller that runs only at quiescence; " + SCHED_TXT + "Oracle: every signal/broadcast begun while a definitely registered waiter exists creates an obligation, "
+    "waits returned >= obligations at each quiescence (no lost signal; proof of soundness in DESIGN 4/C05), waits returned <= signals + broadcast coverage (no release "
+    "without signal), user mutex owned on return (occupancy ghost). Non-trivial = at least one obligation.")
+SPECS["C04"] = rt_spec("C04", one_part("join", join_case), {"quick": 3000, "thorough": 30000},
+    "1-3(5) targets with generated pre-finish work, each with one scenario: sole join, tryjoin-until-success, detach (before/after finish), two contenders on a gated target "
+    "(join+join, join+tryjoin), join/tryjoin after detach on a gated target, detach while another fiber is blocked in join; " + SCHED_TXT +
+    "Oracle: success only after the target's function returned and with its token, <= 1 success per target, join after detach fails, destroy hooks: reclaimed exactly once "
+    "and by quiescence, shadow heap: no touch after reclaim. Non-trivial = a join/tryjoin actually raced with completion (joiner slept, or target waited, or tryjoin retried).")
+def c11_parts(tier):
+    return [{"name": "chan", "strategy": chan_case(tier), "nsched": T(tier, 32, 160), "args": ["--tso", T(tier, 0, 1)], "share": 0.6},
+            {"name": "mchan", "strategy": mchan_case(tier), "nsched": T(tier, 32, 160), "args": ["--tso", T(tier, 0, 1)], "share": 0.4}]
+SPECS["C11"] = rt_spec("C11", c11_parts, {"quick": 3000, "thorough": 30000},
+    "bounded channel (2^1..2^4 slots, with signal and spinning), unbounded MPSC channel (with signal / spinning), single-producer channel: 1-4 senders (1 for SP), one receiver, "
+    "1-12(30) messages per sender in bursts; multi channel: 1-4 senders, 1-3 receivers, capacity 2-8; " + SCHED_TXT + "Oracle: multiset(received) == multiset(sent), per-sender "
+    "order, sends completed - receives begun <= capacity, nobody stranded at quiescence. Non-trivial = a receiver (or multi-channel sender) really blocked and was woken, or >= 2 kernel threads.")
+def c20_parts(tier):
+    return [{"name": "msig", "strategy": msig_case(tier), "nsched": T(tier, 32, 160), "args": ["--tso", T(tier, 0, 1)]}]
+SPECS["C09"] = rt_spec("C09", one_part("sleep", sleep_case, 24, 96, 0), {"quick": 1600, "thorough": 16000},
+    "1-8(12) sleepers on 1-3(4) kernel threads through sleep/usleep/nanosleep/fiber_sleep with durations {0,1us,999us,1ms,4.999ms,5ms,7ms,3ms(shared),12ms,25ms,1s+1us,2s+999999us}, "
+    "woken fibers scribble their stack and sleep again; virtual clock: g ticks per quiescence; 'backlog' class lets ticks pile up unread while fibers are busy; finite ticker fibers; "
+    + SCHED_TXT + "Oracle: virtual time between call and return >= requested, exactly-once wake (pending-wake ghost), no real libc sleep reached, shadow heap + crash capture for the "
+    "dead-frame walk. Non-trivial = at least one sleep call completed.")
+SPECS["C10"] = rt_spec("C10", one_part("yield", yield_case, 8, 24, 0), {"quick": 2500, "thorough": 20000},
+    "2-8 fibers that only yield (budgets up to 200 per op) / work / spawn deferred fibers, on 1 kernel thread (60%) or 2-3; " + SCHED_TXT +
+    "Oracle from the hook trace: while a fiber is ready on a kernel thread, at most 2*(fibers+1)+2 other fibers are switched in there before it runs. "
+    "Non-trivial = >= 3 simultaneously ready fibers and total yield budget >= 5x the bound.")
+def c01_parts(tier):
+    return [{"name": "mixed", "strategy": mixed_case(tier), "nsched": T(tier, 32, 160), "args": ["--tso", T(tier, 0, 1)], "share": 0.8},
+            {"name": "storm", "strategy": mixed_case(tier, storm=True), "nsched": T(tier, 32, 160), "args": ["--tso", T(tier, 0, 1)], "share": 0.2}]
+SPECS["C01"] = rt_spec("C01", c01_parts, {"quick": 2500, "thorough": 24000},
+    "mixed programs: random parallel composition of terminating gadgets over mutex, semaphore, rwlock, spinlock, barrier, channel+signal, join/tryjoin/detach, cond, multi-signal, "
+    "virtual-time sleeps, yield; plus create/yield storms; " + SCHED_TXT + "Oracle: running-on map fed by the switch hooks (target of every switch must be SAVED, destroy only of a SAVED "
+    "DONE fiber, once), pending-wake ghost, shadow heap (no access to a reclaimed control block or stack), all sub-oracles. Non-trivial = >= 2 kernel threads and at least one steal; "
+    "'early_wake' counts wake-ups that arrived before the sleeper had switched away.")
+
 NOT_APPLICABLE = {}
 HOOK_COMMITS = ["0bef496"]
